@@ -38,6 +38,14 @@ MISSED_FIRST = {
  "C02c-3": "was caught only as non-termination after 36 minutes (millions of curve segments per arc); the recording rasterizer now enforces the linear-activity bound online (4*len(input)+8 calls) and the decode is stopped where it is crossed: 23 s",
  "C07c-1": "needs a number register holding a negative integer <= -65; C07's exact family now also draws integers of either sign, multiples of 1/64 and 4-byte floats for number registers, not only values in [0,1]",
  "C04c-3": "needs a one-stop gradient after a gradient with two or more stops on the same Renderer; paths with NSTOPS < 2 were not judged at all, now the property's own clause is applied to them (activity with a fully transparent paint is a violation) and C17's programs contain such gradients after histories that painted a real one",
+ "C20c-1": "needs a transform whose net scale is exactly (1,1) with a translation; C20 now draws scale factors from {1,-1,2,0.5} in a quarter of its cases, factors that cancel, and zero translations",
+ "C20c-3": "needs an icon whose paths use exactly six distinct opacities (all six opacity registers); a quarter of C20's icons now have 6..10 paths with mostly new opacities (and the choice of a reused opacity no longer depends on Go's map order)",
+ "C17c-1": "state in a different object: the Generator in front of the Encoder remembers the last gradient across Reset; C17 now keeps one Generator for the Encoder's lifetime and encodes the same program again on the same objects, C19 writes the same gradient into the previous graphic first",
+ "C17c-2": "needs the last path of the previous graphic to be undrawn and the first path of the next to be gradient-filled; C17's histories now end that way in a third of the cases and a third of its programs start with the gradient path",
+ "C17c-3": "needs the 'fresh' object to be a never-Reset zero-value Encoder; C17 now also encodes B on one (when B's metadata is the default) and compares it with the Reset ones",
+ "C18c-2": "needs a transform slice shared between pipelines and passed with '...'; C18's generator tasks now share one (plus Concat on it), and it is part of the shared-input hash",
+ "C18c-3": "needs a shared stop list that is not in increasing offset order; added to C18's shared inputs",
+ "C16c-3": "only shows when the scaled graphic is expressed through the library's Encoder (+64/+128 land on the boundary of the coordinate forms; C01 and C07 caught it); a third of C16's graphics are now exact in every number and half of their offset and scaled renderings go through Encoder and Decode",
  "C20-2": "SetTransform was called once with literals; C20 now configures the generator twice from a caller-held slice and checks that the slice is unchanged",
 }
 
